@@ -381,6 +381,7 @@ class CatModel:
         ok = s.facts.lower(off) >= 0 and s.facts.upper(off) < size
         s.ev('ob', n, ob='bound', ok=ok, region=('local', loc), off=off, width=1, cap=Lin.c(size), access='write')
         s.ghost.pop(('arr', loc), None)
+        s.ghost.pop(('arrterm', loc), None)
         return [s]
 
     # ---------------------------------------------------------------- ghost hooks
@@ -595,6 +596,10 @@ class CatModel:
             off = 0 if p[0] == 'arr' else (p[3].const if p[3].is_const() else None)
             if txt is not None and off is not None and off <= len(txt):
                 return Lin.c(len(txt) - off)
+            bound = s.ghost.get(('arrterm', loc))
+            if txt is None and off == 0 and bound is not None:
+                # filled by snprintf: NUL-terminated, at most size - 1 characters
+                return it.fresh(s, 'T@arrlen%s' % node_pos(n)[1], None, (0, bound))
         return None
 
     def lib_strlen(self, args, s, it, n):
@@ -636,6 +641,7 @@ class CatModel:
             ok = s.facts.lower(off) >= 0 and s.facts.le(off.add(length), size) is True
             s.ev('ob', n, ob='bound', ok=ok, region=('local', loc), off=off, width=length, cap=Lin.c(size), access='write', via=what)
             s.ghost.pop(('arr', loc), None)
+            s.ghost.pop(('arrterm', loc), None)
             return [s]
         region, off = dst[1], dst[2]
         for s1 in self._fork_shared(region, s):
@@ -760,6 +766,8 @@ class CatModel:
         outs = []
         for s1 in self._write_block(dst, ln, s, it, n, 'snprintf'):
             s1.ev('fmt', n, dst=dst, size=ln, fmt=ftxt, args=vals, ret=ret)
+            if dst[0] == 'arr' and ln.is_const() and 1 <= ln.const <= dst[2]:
+                s1.ghost[('arrterm', dst[1])] = ln.const - 1
             if dst[0] == 'mem':
                 self.hook_write(dst[1], dst[2], ln, None, s1, it, n)
                 s1.ghost[('snprintf', ret.single()[0])] = (dst[1], dst[2], ln)
